@@ -59,7 +59,7 @@ func c14Lend(t *testing.T, rec *ev.Rec, round int) {
 		}
 	}
 	for i, id := range lids {
-		if i >= 3 {
+		if i >= 4 {
 			break
 		}
 		l := s.lends[id]
@@ -69,6 +69,14 @@ func c14Lend(t *testing.T, rec *ev.Rec, round int) {
 		}
 		denom := e.u.Assets[l.AssetID].Denom
 		env.refuse("breaker/lend-deposit", owner, lendtypes.NewMsgDeposit(l.Owner, id, sdk.NewCoin(denom, sdk.NewInt(100_000))), on, off)
+		// drawing from the position: a small amount, and exactly everything that is available (the handler's
+		// "withdraw all = close" shortcut)
+		if cur, ok := c.App.LendKeeper.GetLend(c.Ctx(), id); ok && cur.AvailableToBorrow.GT(sdk.NewInt(2000)) {
+			env.refuse("breaker/lend-withdraw", owner, lendtypes.NewMsgWithdraw(l.Owner, id, sdk.NewCoin(denom, sdk.NewInt(1000))), on, off)
+		}
+		if cur, ok := c.App.LendKeeper.GetLend(c.Ctx(), id); ok && cur.AvailableToBorrow.IsPositive() {
+			env.refuse("breaker/lend-withdraw/exactly-available", owner, lendtypes.NewMsgWithdraw(l.Owner, id, sdk.NewCoin(denom, cur.AvailableToBorrow)), on, off)
+		}
 	}
 	for i, id := range bids {
 		if i >= 3 {
